@@ -89,6 +89,45 @@ func (e *daemonEngine) firstLockOfTx(site string) bool {
 	return e.rwSite == site
 }
 
+// fileHook is called at the file-level steps of the code that writes key, group and share
+// files (overlay rule R7). In mode "torn" the node dies inside the operation: right after the
+// file was emptied (0 %), or after a write that put only part of the bytes on disk.
+func (e *daemonEngine) fileHook(op, path string, nbytes int, trunc bool) int {
+	n := inOp.Load()
+	if n == nil || n.pc.opGoid != curGoid() {
+		return -1
+	}
+	pc := &n.pc
+	e.rec.Count("probe:file_steps_inside_operations", 1)
+	cp := e.sc.Crash
+	if cp == nil || cp.Mode != "torn" || cp.At != pc.count || pc.fired {
+		return -1
+	}
+	die := false
+	switch op {
+	case "create", "open":
+		die = trunc && cp.TornPct == 0
+	case "write":
+		if cp.TornPct > 0 {
+			return nbytes * cp.TornPct / 100
+		}
+	case "torn":
+		die = true
+	}
+	if !die {
+		return -1
+	}
+	pc.fired = true
+	inOp.Store(nil)
+	e.crashKind = "torn " + pc.opKind
+	e.rec.Count("fault:torn_file", 1)
+	e.rec.Ev("torn", n.addr, "%s %s at %d%%", op, filepath.Base(path), cp.TornPct)
+	e.snapshot(n, "", 0)
+	pc.mu.Unlock()
+	e.crashNode(n)
+	select {}
+}
+
 // boltHook is called at every lock acquisition inside the database layer. Inside a
 // persistence operation of the crash target it counts the write transactions the operation
 // is made of and, in mode "mid", kills the node before the second one.
@@ -165,8 +204,10 @@ func (n *dNode) persist(kind, file string, do func() error) error {
 		pc.fired = true
 		e.crashKind = cp.Mode + " " + kind
 		if cp.Mode == "torn" && file != "" {
-			e.snapshot(n, file, cp.TornPct)
-		} else {
+			// the operation wrote its file without passing a file-level crash point (fileHook)
+			e.rec.Count("probe:torn_point_not_reached", 1)
+		}
+		{
 			e.snapshot(n, "", 0)
 		}
 		pc.mu.Unlock()
